@@ -181,7 +181,8 @@ def run_sequences(ctx, nseq):
                       'how': 'harness/impl/c18_driver.py mode seqs: slots = init tensors, each op appends its result'}
             if bad:
                 nfail += 1
-                ctx.report('impl:%s:%s' % (bad[0], sig), '%s: %s' % (sig, bad[1]), replay)
+                nd = len(c['init'][0].get('Xs') or c['init'][0].get('Us') or c['init'][0].get('sh'))
+                ctx.report('impl:%s:%s:order%d' % (bad[0], sig, nd), '%s: %s' % (sig, bad[1]), replay)
             try:
                 cc = coq_step_case(c, steps, j)
             except CQ.NotExact:
@@ -198,8 +199,22 @@ def run_sequences(ctx, nseq):
     chunks = chunked(coq_cases, 150)
     files = [('C18_steps_%03d' % n, CQ.step_file([x[0] for x in ch])) for n, ch in enumerate(chunks)]
     dis = []
+    # self-test of the differ: cases whose expected result is deliberately wrong must all be flagged
+    st = [x for x in coq_cases if x[0][2].startswith('(Ca') or x[0][2].startswith('(Tu')][:8]
+    if st:
+        wrong = [(o, a, '(Ca [M 1 1 [[7%Z]]])' if k % 2 else '(Er TypeError)') for k, ((o, a, e), _, _, _) in enumerate(st)]
+        ok, out = ctx.coq_eval('C18_selftest', CQ.step_file(wrong))
+        ctx.obligations += 1
+        if ok and parse_coq_list_of_nat(out) == list(range(len(wrong))):
+            ctx.discharged += 1
+        else:
+            ctx.broken.append('self-test of the step differ failed: perturbed cases not flagged: ' + out[-300:])
     run_coq_files(ctx, files, chunks, 'step', dis)
-    for what, (cc, replay, sig, bad) in dis[:6]:
+    for what, (cc, replay, sig, bad) in dis:
+        if bad:
+            continue     # already reported above with this input as a failure of the property itself
+        if sum(1 for b in ctx.broken if b.startswith('correspondence')) >= 6:
+            break
         ctx.broken.append('correspondence C18 model<->impl differs on step %s' % sig)
         ctx.report('tie:step:%s' % sig,
                    'model and implementation disagree on %s%s' % (sig, (': ' + bad[1]) if bad else
